@@ -17,6 +17,7 @@ box.  Clauses:
                     model that reproduces on the real code is still a violation.
 """
 import math
+import time
 from fractions import Fraction
 
 import numpy as np
@@ -37,7 +38,7 @@ META = {
     'assumptions': ['floats as reals; constants such as np.pi / np.e are the exact rational values of the doubles',
                     '(B) is proved with sound lemma instances (ranges, monotonicity, convexity, exp(t)<=1/(1-t), Taylor enclosures); '
                     'z3 (incl. its nlsat tactic) trusted'],
-    'undecided': ['(B) for Michalewicz, Schubert, Synthetic1D/2D (need branch-and-bound over transcendental terms beyond what z3 decides here; GramacyLee IS decided that way, config BB-GramacyLee); '
+    'undecided': ['(B) for Michalewicz, Schubert, Synthetic5D/10D (need branch-and-bound over transcendental terms beyond what z3 decides here; GramacyLee, Synthetic1D and Synthetic2D ARE decided that way, configs BB-*); '
                   '(T) and (O) are still checked for them, and (B) is still attempted as a refutation query'],
 }
 
@@ -209,7 +210,7 @@ def _refute(ctx, name, bad):
 
 
 # ---------------------------------------------------------------------------------------------------------
-# (B) by solver-driven branch and bound (GramacyLee): the real evaluate() runs ONCE on a symbolic
+# (B) by solver-driven branch and bound (GramacyLee, Synthetic1D, Synthetic2D): the real evaluate() runs ONCE on a symbolic
 # point of the whole box, which yields the cost as one term over SIN(...) / EXP(...) applications.  The box is then
 # bisected adaptively; for each cell the solver gets Taylor enclosures of every SIN / EXP application around the
 # (concrete, double) value of its argument at the cell centre and must refute `cell /\ cost beats the optimum`.
@@ -250,6 +251,8 @@ def _enclosures(ctx, xs, cell):
         poly = ops.rv(S) + ops.rv(C) * d - ops.rv(S / 2) * d * d - ops.rv(C / 6) * d * d * d
         rem = d * d * d * d / 24 + ops.rv(3 * LIBM_EPS)
         out.append((z3.And(d >= -1, d <= 1), z3.And(ops.SIN(arg) >= poly - rem, ops.SIN(arg) <= poly + rem)))
+        polyc = ops.rv(C) - ops.rv(S) * d - ops.rv(C / 2) * d * d + ops.rv(S / 6) * d * d * d
+        out.append((z3.And(d >= -1, d <= 1), z3.And(ops.COS(arg) >= polyc - rem, ops.COS(arg) <= polyc + rem)))
     for arg in ctx.uf_apps.get('exp', []):
         vals = [v for v in (_term_value(arg, pt) for pt in corners) if v is not None]
         if not vals:
@@ -294,6 +297,29 @@ def _established(ctx, inside, enclosures):
     return out
 
 
+def _pure_query(ctx, formulas, timeout_ms):
+    """Decide `path condition /\\ formulas` in a fresh solver after replacing every registered SIN / COS / EXP application by
+    a fresh real constant (the enclosures are then the only facts about them: an over-approximation, so `unsat` carries
+    over).  Without uninterpreted functions the query is plain QF_NRA, which z3 decides far faster."""
+    import z3
+    sub = []
+    for k, arg in enumerate(ctx.uf_apps.get('trig', [])):
+        sub += [(ops.SIN(arg), z3.Real('sin!%d' % k)), (ops.COS(arg), z3.Real('cos!%d' % k))]
+    for k, arg in enumerate(ctx.uf_apps.get('exp', [])):
+        sub.append((ops.EXP(arg), z3.Real('exp!%d' % k)))
+    s = z3.Solver()
+    s.set('timeout', timeout_ms)
+    s.set('rlimit', 40000000)
+    for f in list(ctx.pc) + list(formulas):
+        s.add(z3.substitute(f, *sub) if sub else f)
+    t0 = time.time()
+    r = s.check()
+    st = ctx.engine.stats
+    st.queries += 1
+    st.solver_time += time.time() - t0
+    return r
+
+
 def piecewise_bound(args):
     name, modk, kwargs = args['name'], args['mod'], args['kwargs']
     min_width, max_cells = args.get('min_width', 1e-4), args.get('max_cells', 4000)
@@ -324,7 +350,7 @@ def piecewise_bound(args):
             while work:
                 cell = work.pop()
                 inside = [z3.And(xi.t >= ops.rv(Fraction(lo)), xi.t <= ops.rv(Fraction(hi))) for xi, (lo, hi) in zip(x, cell)]
-                res, _m = ctx._query(inside + [tb] + _established(ctx, inside, _enclosures(ctx, x, cell)))
+                res = _pure_query(ctx, inside + [tb] + _established(ctx, inside, _enclosures(ctx, x, cell)), 6000)
                 w = max(hi - lo for lo, hi in cell)
                 if res == z3.unsat:
                     proved += 1
@@ -482,10 +508,10 @@ def configs(tier):
                         'weight': 1, 'allow_no_reach': False, 'engine': {'validate': 2}})
             out.append({'name': 'S-' + tag, 'task': 'concrete_box_samples', 'args': {'name': name, 'mod': modk, 'kwargs': kw},
                         'weight': 1, 'engine': {'validate': 0}})
-    # (B) for GramacyLee by solver-driven branch and bound.  (Synthetic1D -- 15 Gaussians, margin 6.6e-4 between the true
-    # maximum 3.23034 and documented optimum + tolerance -- was tried with chord / tangent enclosures: the cell queries time
-    # out in z3's NRA, so its clause (B) stays undecided.)
-    for name, modk in (('GramacyLee', 'BF'),):
+    # (B) for GramacyLee, Synthetic1D and Synthetic2D by solver-driven branch and bound (6 / 68 / 57 cells).  Schubert (product of
+    # two sums of five cosines on [-10, 10]^2, 18 global minima) was tried with the same scheme: 2 267 cell queries in 300 s
+    # without closing the cover, so its clause (B) stays undecided.
+    for name, modk in (('GramacyLee', 'BF'), ('Synthetic1D', 'BR'), ('Synthetic2D', 'BR')):
         out.append({'name': 'BB-' + name, 'task': 'piecewise_bound', 'args': {'name': name, 'mod': modk, 'kwargs': {}},
                     'weight': 8, 'allow_no_reach': False,
                     'engine': {'validate': 3, 'first_timeout_s': 4, 'query_timeout_s': 30, 'final_timeout_s': 40}})
